@@ -251,7 +251,14 @@ func culpritNodes(net *sim.Net, err *tss.Error) []int {
 		out = append(out, found)
 	}
 	sort.Ints(out)
-	return out
+	// a set: the same party may be named by several sub-checks of one round
+	var uniq []int
+	for i, v := range out {
+		if i == 0 || v != out[i-1] {
+			uniq = append(uniq, v)
+		}
+	}
+	return uniq
 }
 
 // judgeHonest applies C05's clauses to the honest parties' view at quiescence.
